@@ -148,6 +148,9 @@ def rule_admission_filter(ctx, res):
                         bad = truth
                     if isinstance(x, tuple) and x[0] == 'call' and x[1] == 'table::leading_bit_count' and term_int(y) == max_buckets:
                         own = truth
+            # `bits < MAX_BUCKETS` excludes the own id just as `bits != MAX_BUCKETS` does (at least as strict)
+            if rel == 'lt' and truth is True and isinstance(a, tuple) and a[0] == 'call' and a[1] == 'table::leading_bit_count' and term_int(b2) == max_buckets:
+                own = False
         if router is not False:
             ok = False
             why.append('placement reachable without routers.contains(node.addr()) == false')
